@@ -33,6 +33,7 @@ class Obligation:
         self.skip_clauses = list(skip_clauses or [])
         self.allow_empty = allow_empty
         self.unit_sorts = tuple(unit_sorts)      # sorts of size ONE in this configuration (both worlds)
+        self.diag_tags = ()                      # generator tags whose density is handed over as a GaussianDiagPDF
 
     def keeps(self, clause):
         if clause == "<no-raise>":
@@ -88,8 +89,12 @@ def unit_variants(obs):
     for o in obs:
         for unit in listed.get(o.id, []):
             v = copy.copy(o)
-            v.id = f"{o.id}/{unit}=1"
-            v.unit_sorts = tuple(o.unit_sorts) + (unit,)
+            if unit == "prior=GaussianDiagPDF":
+                v.id = f"{o.id}/{unit}"
+                v.diag_tags = ("x",)
+            else:
+                v.id = f"{o.id}/{unit}=1"
+                v.unit_sorts = tuple(o.unit_sorts) + (unit,)
             v.tier = "quick"
             out.append(v)
     return out
@@ -144,6 +149,7 @@ def run_symbolic(ob, canary=False):
     for (a, b), gt in ob.order.items():
         order[(a, b)] = gt
     w = SymWorld(order=order, unit_sorts=ob.unit_sorts)
+    w.diag_tags = getattr(ob, "diag_tags", ())
     w.canary = canary
     t0 = time.time()
     status, err = "ok", ""
@@ -181,7 +187,7 @@ def run_symbolic(ob, canary=False):
                 decisions=sorted(set(f"{t} -> {v}" for t, v in w.decisions)),
                 ops=dict(w.ops), assumptions=sorted(w.assumptions),
                 inverted=[dict(n=r["n"], terms=r["terms"], symmetric=r["symmetric"]) for r in w.assumed_pd],
-                stats=dict(w.ctx.stats), hints=list(w.hints_used))
+                stats=dict(w.ctx.stats), hints=list(w.hints_used), diag_applied=bool(getattr(w, "diag_applied", False)))
 
 
 def _tb_repo(ex):
@@ -199,6 +205,7 @@ def run_numeric(ob, sizes, seed):
     from .world import NumWorld
     X.load()
     w = NumWorld(sizes, seed=seed)
+    w.diag_tags = getattr(ob, "diag_tags", ())
     status, err = "ok", ""
     t0 = time.time()
     try:
